@@ -163,12 +163,16 @@ def handed : WQ → List Op → List (Msg × Sent)
 def pieceFrame (r : Req) (bytes : Bytes) : Bytes :=
   be32 (9 + bytes.length) ++ [7] ++ be32 r.idx ++ be32 r.b ++ bytes
 
+/-- The frame's message id is 7 (`piece`). -/
+def isDataFrame (bs : Bytes) : Bool := (bs.drop 4).head? == some 7
+
+/-- The request answered with a data-carrying piece frame by one hand-off, if any. -/
+def dataOf : Msg × Sent → Option Req
+  | (.piece r, .frame bs) => if isDataFrame bs then some r else none
+  | _ => none
+
 /-- Requests answered with a data-carrying piece frame in a hand-off list. -/
-def dataSent (h : List (Msg × Sent)) : List Req :=
-  h.filterMap fun x =>
-    match x with
-    | (.piece r, .frame bs) => if (bs.drop 4).head? = some 7 then some r else none
-    | _ => none
+def dataSent (h : List (Msg × Sent)) : List Req := h.filterMap dataOf
 
 /-- The invariant of the `Run` loop state (`wq_bound`). -/
 structure Inv (s : WQ) : Prop where
